@@ -195,6 +195,9 @@ type FaultSpec struct {
 	// "unexpected-eof" = io.ErrUnexpectedEOF (a torn read), "enospc" and
 	// "efbig" = *os.PathError wrapping the errno (a full disk / size limit).
 	As string `json:"as,omitempty"`
+	// Sticky: the condition persists (descriptor table full, disk full):
+	// every later operation of the same kind fails in the same way.
+	Sticky bool `json:"sticky,omitempty"`
 }
 
 // Unfaultable reports the I/O kinds no fault is injected into: the property
@@ -280,6 +283,7 @@ type Sim struct {
 	paranoid bool
 
 	signals map[string]*VC
+	sticky  map[string]FaultSpec
 }
 
 type clientSpec struct {
@@ -984,7 +988,19 @@ func (s *Sim) release(g *G) {
 			if s.cfg.FaultAll {
 				allowed = !Unfaultable(p.ioKind)
 			}
-			if f, ok := s.faultAt[ord]; ok && allowed {
+			f, ok := s.faultAt[ord]
+			if !ok && allowed {
+				if sf, persists := s.sticky[p.ioKind]; persists {
+					f, ok = sf, true
+				}
+			}
+			if ok && allowed {
+				if f.Sticky {
+					if s.sticky == nil {
+						s.sticky = map[string]FaultSpec{}
+					}
+					s.sticky[p.ioKind] = f
+				}
 				rec.Faulted = true
 				g.ioErr = &Fault{Kind: p.ioKind, Ordinal: ord, After: f.After}
 				switch f.As {
@@ -994,6 +1010,8 @@ func (s *Sim) release(g *G) {
 					g.ioErr = &os.PathError{Op: p.ioKind, Path: "simulated", Err: syscall.ENOSPC}
 				case "efbig":
 					g.ioErr = &os.PathError{Op: p.ioKind, Path: "simulated", Err: syscall.EFBIG}
+				case "emfile":
+					g.ioErr = &os.PathError{Op: p.ioKind, Path: "simulated", Err: syscall.EMFILE}
 				}
 				if f.After {
 					g.ioMode = 2
